@@ -6,6 +6,7 @@ history is replayable.  `apply_op(sig, name, args)` performs the call and return
 the caller still holds afterwards) or None.
 """
 import copy
+import os
 import warnings
 
 import numpy as np
@@ -545,3 +546,169 @@ ARGS.update({
     'generate_response_spectrum/given': _a_periods_rel,
     'response_series/given': _a_periods_rel,
 })
+
+
+# ---- round 9 (hx_r9c) --------------------------------------------------------------------------------------------------------------------
+# (1) add_signal with an operand that has a HISTORY of its own: args {'series'|'own_view': ..., 'operand': {'cls': 'Signal'|'AccSignal', 'read': [...]}} --
+#     the added object is of either class and the listed quantities were read on it before it is added (its caches are warm).  A shortcut keyed on
+#     the cache state of the ARGUMENT must leave the receiver exactly what a fresh object with the summed record reports.
+# (2) the take / patch in place / hand back idiom: args {'own_view': 'self' | [i0, i1, step], 'edit': {'slice': [i0, i1], 'scale': c, 'shift': d}} --
+#     the array obtained from the object is modified by the caller and then handed to reset_values / add_series (the library's own
+#     set_zero_residual_* do exactly this).  Same rows of the effect table, same names for the state machine (value replacements).
+OPERAND_READS = ['fa_spectrum', 'smooth_fa_spectrum', 'fa_freqs', 'velocity', 'displacement', 'pga', 'pgd', 's_a', 'values']
+
+
+def _edit_in_place(v, e):
+    i0, i1 = e.get('slice', [None, None])
+    v[i0:i1] = v[i0:i1] * e.get('scale', 1.0) + e.get('shift', 0.0)
+    return v
+
+
+_passed_array_r7 = passed_array
+
+
+def passed_array(s, args, key):
+    a = _passed_array_r7(s, args, key)
+    if 'edit' in args:
+        _edit_in_place(a, args['edit'])
+    return a
+
+
+def own_view_content(s, args):
+    """copy of the content of the array an {'own_view': ...} call is about to pass, AFTER the caller's own edit (None for every other call);
+    to be taken BEFORE the call; leaves the object's array alone"""
+    if isinstance(args, dict) and 'own_view' in args:
+        c = np.array(_passed_array_r7(s, args, None), copy=True)
+        return _edit_in_place(c, args['edit']) if 'edit' in args else c
+    return None
+
+
+_apply_op_r7 = apply_op
+
+
+def apply_op(s, name, args):
+    if name == 'add_signal' and isinstance(args, dict) and 'operand' in args:
+        import eqsig
+        spec = args['operand']
+        a = passed_array(s, args, 'series')
+        o = eqsig.AccSignal(a, s.dt) if spec.get('cls') == 'AccSignal' else eqsig.Signal(a, s.dt)
+        for q in spec.get('read', []):
+            if hasattr(o, q):
+                getattr(o, q)
+        s.add_signal(o)
+        return a
+    return _apply_op_r7(s, name, args)
+
+
+def _a_edit(rng, s, full_length):
+    n = len(s.values)
+    args = _a_own_view(rng, s, full_length) if rng.random() < 0.3 else {'own_view': 'self'}
+    i0 = rng.choice([None, 0, rng.randrange(n)])
+    args['edit'] = {'slice': [i0, rng.choice([None, None, n, (i0 or 0) + 1 + rng.randrange(n)])],
+                    'scale': rng.choice([1.0, 0.5, -1.0, 2.0]), 'shift': rng.choice([0.0, 0.25, -0.125])}
+    if args['edit']['scale'] == 1.0 and args['edit']['shift'] == 0.0:
+        args['edit']['shift'] = 0.5
+    return args
+
+
+def _a_reset_r9(rng, s):
+    if isinstance(getattr(s, 'values', None), np.ndarray) and s.values.dtype.kind == 'f' and s.values.flags.writeable and len(s.values) >= 2 \
+            and rng.random() < 0.15:
+        return _a_edit(rng, s, False)
+    return _a_reset_any(rng, s)
+
+
+def _a_series_r9(rng, s):
+    if isinstance(getattr(s, 'values', None), np.ndarray) and s.values.dtype.kind == 'f' and s.values.flags.writeable and len(s.values) >= 2 \
+            and rng.random() < 0.08:
+        return _a_edit(rng, s, True)
+    return _a_series_any(rng, s)
+
+
+def _a_signal_r9(rng, s):
+    args = _a_series_r9(rng, s)
+    if rng.random() < 0.6:
+        k = rng.choice([0, 1, 1, 2, 3, len(OPERAND_READS)])
+        args['operand'] = {'cls': rng.choice(['AccSignal', 'AccSignal', 'Signal']), 'read': rng.sample(OPERAND_READS, k)}
+    return args
+
+
+ARGS.update({'reset_values': _a_reset_r9, 'add_series': _a_series_r9, 'add_signal': _a_signal_r9})
+
+
+# (3) records held in containers that are NOT plain ndarrays but expose their buffer to NumPy (np.asarray gives a view of THEIR memory: ndarray
+#     subclasses -- masked array, memmap, a trivial subclass, recarray --, objects with __array__, buffer-protocol objects): args {'values': [...], 'wrap': kind}
+WRAP_KINDS = ['masked', 'masked/explicit-mask', 'memmap', 'subclass', 'recarray-field', 'recarray-view', '__array__ wrapper', 'array.array', 'strided-subclass']
+
+
+class _PlainSub(np.ndarray):
+    pass
+
+
+class ArrayHolder:
+    """a minimal array wrapper: sequence protocol + __array__ handing out its own buffer (what np.asarray is documented to use)"""
+
+    def __init__(self, a):
+        self._a = a
+
+    def __array__(self, dtype=None, copy=None):
+        if copy:
+            return np.array(self._a, dtype=dtype)
+        return self._a if dtype is None else self._a.astype(dtype, copy=False)
+
+    def __len__(self):
+        return len(self._a)
+
+    def __getitem__(self, i):
+        return self._a[i]
+
+    def __setitem__(self, i, v):
+        self._a[i] = v
+
+    def __repr__(self):
+        return 'ArrayHolder(%r)' % (self._a.tolist(),)
+
+
+_WRAP_COUNT = [0]
+
+
+def wrap_array(values, kind):
+    """the record `values` (floats) held in a container of the given kind"""
+    a = np.array(values, dtype=float)
+    if kind == 'masked':
+        return np.ma.MaskedArray(a)
+    if kind == 'masked/explicit-mask':
+        return np.ma.MaskedArray(a, mask=np.zeros(len(a), dtype=bool))
+    if kind == 'memmap':
+        import core
+        os.makedirs(core.WORK, exist_ok=True)
+        _WRAP_COUNT[0] += 1
+        path = os.path.join(core.WORK, 'c05_memmap_%d_%d.dat' % (os.getpid(), _WRAP_COUNT[0]))
+        m = np.memmap(path, dtype=float, mode='w+', shape=(len(a),))
+        m[:] = a
+        m.flush()
+        os.unlink(path)          # the mapping stays valid; nothing is left behind
+        return m
+    if kind == 'subclass':
+        return a.view(_PlainSub)
+    if kind == 'strided-subclass':
+        return np.repeat(a, 2).view(_PlainSub)[::2]
+    if kind == 'recarray-field':
+        return np.rec.fromarrays([a, np.arange(len(a)) * 0.5], names='acc,t').acc
+    if kind == 'recarray-view':
+        return a.view(np.recarray)
+    if kind == '__array__ wrapper':
+        return ArrayHolder(a)
+    if kind == 'array.array':
+        import array
+        return array.array('d', a.tolist())
+    raise KeyError(kind)
+
+
+_passed_array_r9 = passed_array
+
+
+def passed_array(s, args, key):
+    if isinstance(args, dict) and 'wrap' in args:
+        return wrap_array(args[key], args['wrap'])
+    return _passed_array_r9(s, args, key)
